@@ -120,7 +120,16 @@ class ObservedCompiler(Compiler):  # noqa: D101
         given = {observed_name(node) for node in compiled_net.graph['observed']}
         copies = {observed_name(node): node for node in observable + uses_observed}
         outputs = [node for node in compiled_net.graph['outputs'] if compiled_net.has_node(node)]
-        needed = nbunch_ancestors(compiled_net, outputs)
+        # Nothing behind a given observation is needed
+        needed = set()
+        stack = list(outputs)
+        while stack:
+            node = stack.pop()
+            if node in needed:
+                continue
+            needed.add(node)
+            if node not in given:
+                stack.extend(compiled_net.predecessors(node))
         unchecked = [node for node in copies if node in needed and node not in given]
         checked = set()
         while unchecked:
